@@ -4,6 +4,7 @@ C14 — Saving is deterministic up to the numbering of new slots.
 import RichchkModel.Lemmas.AllocPerm
 import RichchkModel.Model.Editors
 import RichchkModel.Lemmas.StrGrow
+import RichchkModel.Lemmas.OrderFree
 namespace Richchk.Props.C14
 open Richchk
 
@@ -43,5 +44,29 @@ theorem c14_strings_order_is_input_order (req seen : List Bytes) :
 example : (allocate ⟨1, 64, none, true⟩ [1] [.fresh, .carry 2]).toOption.map (fun p => placedSlots p.1) = some [2, 3] ∧
     (allocate ⟨1, 64, none, true⟩ [1] [.carry 2, .fresh]).toOption.map (fun p => placedSlots p.1) = some [2, 3] := by
   decide +kernel
+
+/-- **C14 (whole rebuilds, saves that add nothing).**  The model's rebuilders take the iteration
+order of the sets they collect as a parameter.  When every location the triggers reference carries
+the slot number of a stored location — which is the case for every map that was loaded and not given
+new locations — the rebuilt location list is the existing table for EVERY order; hence two saves of
+the same map under different hash seeds / memory layouts produce the same MRGN. -/
+theorem c14_location_rebuild_order_free (cfg : RichCfg) (secs : List RSection) (table : List RLoc)
+    (hsec : secs.filter (isSectionNamed nMRGN) = [.mrgn table]) (hidx : ∀ t ∈ table, t.idx.isSome)
+    (hfound : ∀ l ∈ (secs.filter (fun s => !isSectionNamed nMRGN s)).flatMap (sectionLocs cfg),
+      ∃ i, l.idx = some i ∧ ¬ (i < cfg.mrgnCfg.lo ∨ cfg.mrgnCfg.hi < i) ∧ i ∈ table.filterMap (·.idx))
+    (o1 o2 : Option (List Nat)) : rebuildMrgn cfg secs o1 = rebuildMrgn cfg secs o2 := by
+  rw [rebuildMrgn_order_free cfg secs table hsec hidx hfound o1,
+    rebuildMrgn_order_free cfg secs table hsec hidx hfound o2]
+
+/-- the same for unit-property sets: references that carry a stored slot number or equal a stored
+set need no allocation, and the rebuilt table does not depend on the order -/
+theorem c14_unit_property_rebuild_order_free (cfg : RichCfg) (secs : List RSection) (table : List RCuwp)
+    (hsec : secs.filter (isSectionNamed nUPRP) = [.uprp table]) (hidx : ∀ t ∈ table, t.idx.isSome)
+    (hfound : ∀ c ∈ (secs.filter (fun s => !isSectionNamed nUPRP s)).flatMap (sectionCuwps cfg),
+      (∃ i, c.idx = some i ∧ ¬ (i < cfg.uprpCfg.lo ∨ cfg.uprpCfg.hi < i) ∧ i ∈ table.filterMap (·.idx)) ∨
+      (c.idx = none ∧ table.any (fun t => t.key == c.key) = true))
+    (o1 o2 : Option (List Nat)) : rebuildUprp cfg secs o1 = rebuildUprp cfg secs o2 := by
+  rw [rebuildUprp_order_free cfg secs table hsec hidx hfound o1,
+    rebuildUprp_order_free cfg secs table hsec hidx hfound o2]
 
 end Richchk.Props.C14
